@@ -8,8 +8,18 @@ identity-encoded integer blocks, and against the restart choice of the real
 `read_data` on generated directories.
 Search oracle: the ground truth of the generator (lib/etgen.py) for the
 directory it wrote, which knows nothing of aurel or of the Lean model.
+
+Extension (Props/C11b.lean, Props/C11c.lean):
+ * Model/Restarts.lean (restart choice with / without checkpoints, explicit restart, flattening of the
+   per-restart tables) tied to the real read_data by the `sel2` correspondence;
+ * Model/Checkpoint.lean (read_ET_checkpoints) tied to the real function through real HDF5 checkpoint
+   files (`ckpt` correspondence: well-formed and malformed files) and checked against the generator's
+   ground truth through read_data(usecheckpoints=True);
+ * the class-X witnesses of Props/C11b (accepted although not hierarchical), the duplicate-name witness
+   of Props/C11c and the differing-columns witness of Props/C11b are replayed on the real code.
 """
 import contextlib
+import glob
 import io
 import os
 import shutil
@@ -27,8 +37,25 @@ THEOREMS = ["AurelVerif.C11." + t for t in (
     "restart_latest", "restart_none", "read_order_complete",
     "scalar_names_roundtrip", "tensor_components_roundtrip", "tensor_expansion_commutes",
     "group_members_are_ET_names")]
+MODULE_B = "AurelVerif.Props.C11b"
+THEOREMS_B = ["AurelVerif.C11." + t for t in (
+    "accepted_structure", "structure_accepted", "gapfree_is_hierarchical", "accepted_dichotomy", "classX_gap",
+    "classX_shifted_strip", "unsupported_layout_raises_full_is_false",
+    "pick_latest", "pick_none", "pick_max", "pick_agrees_with_pickRestart", "rows_aligned", "rows_aligned_explicit",
+    "rows_misaligned_when_columns_differ")]
+MODULE_C = "AurelVerif.Props.C11c"
+THEOREMS_C = ["AurelVerif.C11." + t for t in (
+    "checkpoint_file_selection", "checkpoint_it_exact", "checkpoint_table_exact", "checkpoint_pipeline_exact",
+    "checkpoint_table_exact_needs_nodup", "ckGoodIt")]
 LEAN_FILES = ["AurelVerif/Props/C11.lean", "AurelVerif/Lemmas/Chunks.lean", "AurelVerif/Model/Chunks.lean",
-              "AurelVerif/Gen/VarMaps.lean", "Driver/C11.lean"]
+              "AurelVerif/Gen/VarMaps.lean", "Driver/C11.lean",
+              "AurelVerif/Props/C11b.lean", "AurelVerif/Props/C11c.lean", "AurelVerif/Model/Restarts.lean",
+              "AurelVerif/Model/Checkpoint.lean", "AurelVerif/Spec/ChunkLayout.lean",
+              "AurelVerif/Spec/CheckpointSpec.lean", "AurelVerif/Lemmas/C11Accept.lean",
+              "AurelVerif/Lemmas/C11AcceptPass.lean", "AurelVerif/Lemmas/C11AcceptMain.lean",
+              "AurelVerif/Lemmas/C11AcceptCons.lean", "AurelVerif/Lemmas/C11AcceptConv.lean",
+              "AurelVerif/Lemmas/C11Restarts.lean", "AurelVerif/Lemmas/C11Checkpoint.lean",
+              "AurelVerif/Lemmas/C11CheckpointTable.lean", "AurelVerif/Lemmas/C11CheckpointE2E.lean"]
 
 
 @contextlib.contextmanager
@@ -292,10 +319,16 @@ def random_calls(rng, sim, ncalls, skip_last):
 def expected_rows(sim, call):
     """[(it, restart)] a correct reader returns, in order"""
     rows = []
+    chk = call.get("usecheckpoints", False)
     for it in sorted(set(call["it"])):
         if call["restart"] >= 0:
-            its = sim.its_of(call["restart"])
-            r = call["restart"] if its and min(its) <= it <= max(its) else None
+            if chk:
+                r = call["restart"] if it in sim.checkpoint_its(call["restart"]) else None
+            else:
+                its = sim.its_of(call["restart"])
+                r = call["restart"] if its and min(its) <= it <= max(its) else None
+        elif chk:
+            r = sim.checkpoint_restart_of(it, call["skip_last"])
         else:
             r = sim.restart_of(it, call["skip_last"])
         if r is not None:
@@ -308,6 +341,8 @@ def do_read(param, call, split_per_it=False):
               split_per_it=split_per_it, verbose=False)
     if not call["skip_last"]:
         kw["skip_last"] = False
+    if call.get("usecheckpoints"):
+        kw["usecheckpoints"] = True
     import aurel
     with quiet():
         return aurel.read_data(param, **kw)
@@ -316,10 +351,12 @@ def do_read(param, call, split_per_it=False):
 def check_against_truth(sim, call, data):
     """None or a description of the first difference with the ground truth"""
     rows = expected_rows(sim, call)
+    chk = bool(call.get("usecheckpoints", False))
     if "it" not in data or [int(i) for i in data["it"]] != [it for it, _ in rows]:
         return "iterations returned %s, expected %s" % ([int(i) for i in data.get("it", [])], [it for it, _ in rows])
-    if [float(t) for t in data["t"]] != [sim.time(it, r) for it, r in rows]:
-        return "times returned %s, expected %s" % ([float(t) for t in data["t"]], [sim.time(it, r) for it, r in rows])
+    if [float(t) for t in data["t"]] != [sim.time(it, r, chk) for it, r in rows]:
+        return "times returned %s, expected %s" % ([float(t) for t in data["t"]],
+                                                   [sim.time(it, r, chk) for it, r in rows])
     for n in call["vars"]:
         for c in etgen.components(n):
             if c not in data:
@@ -327,7 +364,7 @@ def check_against_truth(sim, call, data):
             if len(data[c]) != len(rows):
                 return "variable %s has %d entries for %d iterations" % (c, len(data[c]), len(rows))
             for i, (it, r) in enumerate(rows):
-                exp = sim.truth(c, it, call["rl"], r)
+                exp = sim.truth(c, it, call["rl"], r, chk)
                 got = np.asarray(data[c][i])
                 if got.shape != exp.shape:
                     return "%s it=%d rl=%d: shape %s, stored grid %s" % (c, it, call["rl"], got.shape, exp.shape)
@@ -341,7 +378,8 @@ def check_against_truth(sim, call, data):
 
 def fingerprint(sim, call, what):
     d = sim.desc
-    return {"site": "read_data", "per_proc": d["per_proc"], "grouped": d["grouped"],
+    return {"site": "read_data" + ("/checkpoints" if call.get("usecheckpoints") else ""),
+            "per_proc": d["per_proc"], "grouped": d["grouped"],
             "chunks": [etgen.nchunks(lv["decomp"]) for lv in d["levels"]], "restart": call["restart"],
             "kind": what.split(":")[0][:40]}
 
@@ -408,17 +446,412 @@ def pipeline(ctx, root, ndirs):
 
 
 # --------------------------------------------------------------------------
+# level (iii): read_ET_checkpoints on real HDF5 checkpoint files (Model/Checkpoint.lean)
+# --------------------------------------------------------------------------
+CK_POOL = [("ADMBASE", "alp", "alpha"), ("ADMBASE", "gxx", "gxx"), ("ADMBASE", "gxy", "gxy"),
+           ("HYDROBASE", "rho", "rho0"), ("HYDROBASE", "vel[0]", "velx"), ("ML_BSSN", "H", "Hamiltonian"),
+           ("ML_BSSN", "trK", "Ktrace"), ("ADMBASE", "betax", "betax")]
+
+
+def gen_ckpt(rng):
+    nlev = rng.choice((1, 1, 2))
+    per_proc = rng.random() < 0.45
+    while True:
+        levels = []
+        for _ in range(nlev):
+            nx, ny, nz = (rng.randint(1, 4) for _ in range(3))
+            dec = etgen.random_decomp(rng, nx, ny, nz, rng.choice(((1, 1, 1), (2, 1, 1), (2, 2, 1), (2, 2, 2))), 0.2)
+            n = etgen.nchunks(dec)
+            order = list(range(n))
+            rng.shuffle(order)
+            g = rng.randint(1, 2)
+            ghost = [g, g, g] if rng.random() < 0.7 else [rng.randint(1, 2) for _ in range(3)]
+            levels.append({"dec": dec, "order": order, "ghost": ghost, "base": [rng.choice((0, 0, 3)) for _ in range(3)]})
+        counts = {len(lv["order"]) for lv in levels}
+        if not per_proc or (len(counts) == 1 and min(counts) >= 2):
+            break
+    written = rng.sample(CK_POOL, rng.randint(1, 3))
+    extra = [("ML_BSSN", "phi"), ("GRHYDRO", "dens")] if rng.random() < 0.4 else []
+    chk_its = sorted(rng.sample([0, 1, 8, 10, 11, 16, 110], rng.randint(1, 3)))
+    ntl = rng.randint(1, 3)
+    m0 = rng.random() < 0.5
+    files = {}
+    counter = [0]
+
+    def v0():
+        counter[0] += 1
+        return 1000 * counter[0]
+    for it in chk_its:
+        for rl, lv in enumerate(levels):
+            chunks = etgen.canonical_chunks(lv["dec"])
+            n = len(chunks)
+            gx, gy, gz = lv["ghost"]
+            for j, (ox, oy, oz, xl, yl, zl) in enumerate(chunks):
+                c = lv["order"][j]
+                fkey = (it, c if per_proc else None)
+                lst = files.setdefault(fkey, [])
+                for thorn, ev in [w[:2] for w in written] + extra:
+                    for tl in range(ntl):
+                        lst.append([thorn, ev, it, tl, rl, c if n > 1 else None, gx, gy, gz,
+                                    lv["base"][0] + ox, lv["base"][1] + oy, lv["base"][2] + oz,
+                                    500 + it - tl if tl == 0 else 300 + tl, zl + 2 * gz, yl + 2 * gy, xl + 2 * gx, v0()])
+    case = {"op": "ckpt", "m0": m0, "files": [{"it": k[0], "file": k[1], "dsets": v} for k, v in files.items()]}
+    # request
+    its = rng.sample(chk_its, rng.randint(1, len(chk_its)))
+    if rng.random() < 0.3:
+        its.append(rng.choice((5, 1, 10, 11, 110)))        # maybe an iteration without checkpoint
+    if rng.random() < 0.3:
+        its.append(rng.choice(its))
+    names = [w[2] for w in rng.sample(written, rng.randint(1, len(written)))]
+    r = rng.random()
+    if r < 0.12:
+        names.append(rng.choice(names))                    # the same variable twice
+    elif r < 0.2:
+        names.append("eps")                                # not in the file
+    elif r < 0.3:
+        w = rng.choice(written)
+        names[rng.randrange(len(names))] = "%s::%s" % w[:2]  # combined name
+    elif r < 0.36 and any(w[2] == "alpha" for w in written):
+        names.append("alp")                                # ET name next to the aurel name
+    case.update({"its": its, "vars": names, "rl": rng.randrange(nlev + (1 if rng.random() < 0.1 else 0))})
+    # malformed variants
+    mut = rng.random()
+    allds = [(f, i) for f in case["files"] for i in range(len(f["dsets"]))]
+    if mut < 0.08:
+        f, i = rng.choice(allds); del f["dsets"][i]        # a dataset is missing
+    elif mut < 0.14:
+        f, i = rng.choice(allds); f["dsets"][i][5] = None if f["dsets"][i][5] is not None else 0
+    elif mut < 0.2:
+        f, i = rng.choice(allds); f["dsets"][i][5] = (f["dsets"][i][5] or 0) + rng.choice((1, 2))
+    elif mut < 0.25:
+        f, i = rng.choice(allds); f["dsets"][i][4] = None   # no rl=
+    elif mut < 0.3:
+        g = 6 + rng.randrange(3)                            # ghost width 0 on one axis, everywhere: [0:-0] is empty
+        for f, i in allds:                                  # (a zero extent in SOME blocks only is outside the
+            f["dsets"][i][g] = 0                            #  nested-list representation of the model)
+    elif mut < 0.34 and len(case["files"]) > 1:
+        case["files"].pop(rng.randrange(len(case["files"])))
+    elif mut < 0.38:
+        f, i = rng.choice(allds); f["dsets"][i][9 + rng.randrange(3)] += rng.choice((1, 2))   # origin moved: class X / mismatch
+    for f in case["files"]:                                  # HDF5 names are unique
+        seen, keep = set(), []
+        for d in f["dsets"]:
+            k = ds_key(d, m0)
+            if k not in seen:
+                seen.add(k)
+                keep.append(d)
+        f["dsets"] = keep
+    return case
+
+
+def ds_key(d, m0):
+    thorn, ev, it, tl, rl, c = d[:6]
+    return "%s::%s it=%d tl=%d%s%s%s" % (thorn, ev, it, tl, " m=0" if m0 else "",
+                                         "" if rl is None else " rl=%d" % rl, "" if c is None else " c=%d" % c)
+
+
+def file_name(f):
+    return "checkpoint.chkpt.it_%d%s.h5" % (f["it"], "" if f["file"] is None else ".file_%d" % f["file"])
+
+
+def show_arr(a):
+    a = np.asarray(a)
+    if a.size == 0:
+        return "empty"
+    return "%dx%dx%d:%s" % (a.shape + (",".join(str(int(v)) for v in a.ravel()),))
+
+
+def ckpt_real(c, tmp):
+    """(canonical output of the real read_ET_checkpoints, file order met by glob)"""
+    import h5py
+    sim = "cksim"
+    d = os.path.join(tmp, sim, "output-0000", sim)
+    os.makedirs(d, exist_ok=True)
+    try:
+        for f in c["files"]:
+            with h5py.File(os.path.join(d, file_name(f)), "w") as h:
+                h.create_group("Parameters and Global Attributes")
+                for ds in f["dsets"]:
+                    x = h.create_dataset(ds_key(ds, c["m0"]), data=index_block(ds[16], ds[13], ds[14], ds[15]).astype(np.float64))
+                    x.attrs["cctk_nghostzones"] = np.array(ds[6:9], dtype=np.int32)
+                    x.attrs["iorigin"] = np.array(ds[9:12], dtype=np.int32)
+                    x.attrs["time"] = np.float64(ds[12])
+        order = [os.path.basename(p) for p in glob.glob(glob.escape(d) + "/checkpoint.chkpt.it_*.h5")]
+        param = {"simpath": tmp.rstrip("/") + "/", "simname": sim}
+        try:
+            data = reading().read_ET_checkpoints(param, list(c["vars"]), it=list(c["its"]), restart=0, rl=c["rl"],
+                                               verbose=False)
+        except (ValueError, IndexError, KeyError, TypeError, NameError) as ex:
+            return "err", order, type(ex).__name__
+        out = "ok it=" + ",".join(str(int(i)) for i in data["it"])
+        for k, v in data.items():
+            if k == "it":
+                continue
+            out += "|" + k + "=" + "/".join(str(int(x)) if k == "t" else show_arr(x) for x in v)
+        return out, order, data
+    finally:
+        shutil.rmtree(os.path.join(tmp, sim), ignore_errors=True)
+
+
+def ckpt_line(c, order):
+    byname = {file_name(f): f for f in c["files"]}
+    toks = []
+    for fn in order:
+        f = byname[fn]
+        ds = sorted(f["dsets"], key=lambda d: ds_key(d, c["m0"]))
+        toks.append("%d:%s:%s" % (f["it"], "-" if f["file"] is None else f["file"], ";".join(
+            ",".join("-" if x is None else str(x) for x in d) for d in ds)))
+    return "ckpt %d %s %s %s" % (c["rl"], ",".join(map(str, c["its"])), ",".join(c["vars"]), " ".join(toks))
+
+
+def ckpt_cases(ctx, tmp):
+    """random well-formed and malformed checkpoint file sets: real read_ET_checkpoints vs the model"""
+    cases = []
+    kinds = {}
+    for _ in range(ctx.budget(160, 1500)):
+        c = gen_ckpt(ctx.rng)
+        with quiet():
+            out, order, _ = ckpt_real(c, tmp)
+        cases.append((ckpt_line(c, order), out, "ckpt"))
+        k = "%s/%s" % ("proc" if any(f["file"] is not None for f in c["files"]) else "onefile",
+                        "err" if out == "err" else "ok")
+        kinds[k] = kinds.get(k, 0) + 1
+    ctx.cov["checkpoint_direct_cases"] = kinds
+    return cases
+
+
+# --------------------------------------------------------------------------
+# level (iv): read_data(usecheckpoints=True) on generated directories; restart choice (Model/Restarts.lean)
+# --------------------------------------------------------------------------
+def cats_str(sim, considered):
+    """the catalogue as `sel2` wants it: r:lo-hi:c1+c2 (e = empty checkpoint list)"""
+    out = []
+    for r in considered:
+        its = sim.its_of(r)
+        ck = sim.checkpoint_its(r)
+        out.append("%d:%d-%d:%s" % (r, min(its), max(its), "+".join(map(str, sorted(ck))) if ck else "e"))
+    return ",".join(out)
+
+
+def sel2_case(sim, call, data):
+    """(driver line, expected) for the restart choice of one call; data None = the call raised"""
+    considered = sim.restart_numbers(call["skip_last"])
+    line = "sel2 %d %s %s %s" % (1 if call.get("usecheckpoints") else 0,
+                                 "-" if call["restart"] < 0 else call["restart"], cats_str(sim, considered),
+                                 ",".join(map(str, call["it"])))
+    if data is None:
+        return line, "err"
+    c0 = etgen.components(call["vars"][0])[0]
+    shift = etgen.CHK if call.get("usecheckpoints") else 0
+    return line, ("ok " + " ".join(
+        "%d:%d" % (int(it), etgen.decode(np.asarray(data[c0][i]).flat[0]).get("restart", -1) - shift)
+        for i, it in enumerate(data["it"]))).strip()
+
+
+def checkpoint_calls(rng, sim, ncalls, skip_last):
+    d = sim.desc
+    considered = sim.restart_numbers(skip_last)
+    pool = sorted({i for r in considered for i in sim.checkpoint_its(r)})
+    calls = []
+    if not pool:
+        return calls
+    for _ in range(ncalls):
+        its = rng.sample(pool, rng.randint(1, len(pool)))
+        if rng.random() < 0.3:
+            its = its + [rng.choice(its)]
+        if rng.random() < 0.3:
+            others = [i for i in sim.all_its() if i not in pool]
+            if others:
+                its = its + [rng.choice(others)]         # has 3D output but no checkpoint: dropped
+        if rng.random() < 0.08:
+            its = [max(sim.all_its()) + 1000]             # nothing to read: IndexError
+        names = list(d["requests"])
+        if rng.random() < 0.5:
+            names = [c for n in names for c in (etgen.components(n) if rng.random() < 0.5 else [n])]
+            names = rng.sample(names, rng.randint(1, len(names)))
+        comps = [c for n in names for c in etgen.components(n)]
+        if len(set(comps)) != len(comps):
+            # a component requested twice gets two entries per iteration in the checkpoint path
+            # (reported; Props/C11c checkpoint_table_exact_needs_nodup): keep the first occurrence only
+            seen, keep = set(), []
+            for n in names:
+                cs = etgen.components(n)
+                if not any(c in seen for c in cs):
+                    keep.append(n)
+                    seen.update(cs)
+            names = keep
+        call = {"it": its, "vars": names, "rl": rng.randrange(len(d["levels"])), "restart": -1,
+                "skip_last": skip_last, "usecheckpoints": True}
+        if rng.random() < 0.25:
+            r = rng.choice(considered)
+            if any(i in sim.checkpoint_its(r) for i in its):
+                call["restart"] = r
+        calls.append(call)
+    return calls
+
+
+def checkpoint_pipeline(ctx, root, ndirs):
+    rng = ctx.rng
+    found = 0
+    cases = []
+    stats = {"reads": 0, "raised_as_expected": 0, "restarts_with_checkpoints": 0, "per_proc_checkpoints": 0}
+    for k in range(ndirs):
+        per_proc, grouped = bool(k & 1), bool(k & 2)
+        desc = etgen.random_desc(rng, "c11ck%d" % k, per_proc=per_proc, grouped=grouped,
+                                 nlevels=1 + (k // 4) % 2, nmax=ctx.budget(6, 9),
+                                 kmax=rng.choice(((2, 2, 2), (3, 2, 2))))
+        etgen.add_random_checkpoints(rng, desc)
+        skip_last = len(desc["restarts"]) >= 2 and rng.random() < 0.25
+        sim = etgen.Sim(root, desc)
+        calls = checkpoint_calls(rng, sim, ctx.budget(3, 5), skip_last)
+        # a few 3D calls with an explicit restart for the general restart model
+        for call in random_calls(rng, sim, 1, skip_last):
+            calls.append(call)
+        stats["restarts_with_checkpoints"] += sum(1 for r in desc["restarts"] if r.get("checkpoints"))
+        stats["per_proc_checkpoints"] += sum(1 for r in desc["restarts"]
+                                             if r.get("checkpoints", {}).get("per_proc"))
+        if k == 0:
+            ctx.sample({"generated_checkpoints": [r.get("checkpoints") for r in desc["restarts"]],
+                        "checkpoint_calls": calls[:2]})
+        sim.write()
+        try:
+            param = sim.param()
+            for call in calls:
+                rows = expected_rows(sim, call)
+                data, diff = None, None
+                try:
+                    data = do_read(param, call)
+                    diff = check_against_truth(sim, call, data)
+                except Exception as ex:  # noqa
+                    if rows:
+                        diff = "raised %s: %s" % (type(ex).__name__, str(ex)[:200])
+                    else:
+                        stats["raised_as_expected"] += 1     # nothing to read: raising is allowed
+                stats["reads"] += 1
+                if diff:
+                    found += report(ctx, "read_data(%s) on a generated directory with checkpoints: %s" % (
+                        {kk: call[kk] for kk in ("it", "vars", "rl", "restart") + (
+                            ("usecheckpoints",) if call.get("usecheckpoints") else ())}, diff),
+                        {"kind": "input", "op": "pipeline", "desc": sim.describe(), "call": call},
+                        fingerprint(sim, call, diff))
+                else:
+                    cases.append(sel2_case(sim, call, data) + ("sel2",))
+        finally:
+            sim.remove()
+    ctx.cov["checkpoint_pipeline"] = dict(stats, directories=ndirs)
+    return found, cases
+
+
+# --------------------------------------------------------------------------
+# witnesses of the Lean theorems, replayed on the real code
+# --------------------------------------------------------------------------
+def witness_cases(ctx, tmp):
+    """(cases, obligations): every witness is also a correspondence case (model output = real output)"""
+    cases = []
+    notes = {}
+    # class X (Props/C11b classX_gap, classX_shifted_strip): accepted, blocks packed side by side
+    for name, raw, stated in (
+            ("classX_gap", {"op": "raw", "chunks": [[0, 0, 0, 1, 2, 2, 1], [5, 0, 0, 1, 2, 2, 5]]},
+             "ok 1 2 4 : 1 2 5 6 3 4 7 8"),
+            ("classX_shifted_strip", {"op": "raw", "chunks": [[0, 0, 0, 1, 1, 2, 1], [2, 0, 0, 1, 1, 2, 3],
+                                                              [1, 1, 0, 1, 1, 2, 5], [3, 1, 0, 1, 1, 2, 7]]},
+             "ok 1 2 4 : 1 2 3 4 5 6 7 8")):
+        real = raw_real(raw)
+        ctx.obligation("witness %s replays on the real join_chunks (accepted, packed side by side)" % name,
+                       real == stated, "real %s | stated in the theorem %s" % (real, stated), kind="correspondence")
+        cases.append((raw_line(raw), real, "witness"))
+    # the same at the level of read_data: a refinement level made of two separate boxes (recorded, not judged)
+    notes["two_box_level_through_read_data"] = two_box_level(tmp)
+    # a variable requested twice through the checkpoint path (Props/C11c checkpoint_table_exact_needs_nodup)
+    dup = {"op": "ckpt", "m0": True, "rl": 0, "its": [0, 8], "vars": ["alpha", "alp"], "files": [
+        {"it": it, "file": None, "dsets": [["ADMBASE", "alp", it, tl, 0, None, 1, 1, 1, 0, 0, 0, 500 + it, 3, 3, 3,
+                                             1000 * it + 100 * tl] for tl in (0, 1)]} for it in (8, 0)]}
+    with quiet():
+        out, order, data = ckpt_real(dup, tmp)
+    ok = out != "err" and len(data.get("alpha", [])) == 4 and len(data["t"]) == 2
+    ctx.obligation("witness checkpoint_table_exact_needs_nodup replays on the real read_ET_checkpoints "
+                   "(a variable requested twice: 4 entries for 2 iterations)", ok, out[:200], kind="correspondence")
+    cases.append((ckpt_line(dup, order), out, "witness"))
+    # a variable missing in a middle restart (Props/C11b rows_misaligned_when_columns_differ)
+    line, real = differing_columns(tmp)
+    ctx.obligation("witness rows_misaligned_when_columns_differ replays on the real read_data "
+                   "(shorter, shifted column)", real == "ok it=0,6,10|alpha=0,6,10|rho0=0,10", real,
+                   kind="correspondence")
+    cases.append((line, real, "witness"))
+    ctx.cov["witness_replays"] = notes
+    return cases
+
+
+def two_box_level(tmp):
+    desc = {"name": "twobox", "per_proc": False, "grouped": False, "m0": True, "vars": ["alpha"],
+            "levels": [{"shape": [6, 4, 4], "ghost": [1, 1, 1], "base": [0, 0, 0], "decomp": [[4, [[4, [6]]]]],
+                        "order": [0]},
+                       {"shape": [6, 4, 4], "ghost": [1, 1, 1], "base": [10, 4, 4], "decomp": [[4, [[4, [3, 3]]]]],
+                        "order": [0, 1]}],
+            "restarts": [{"number": 0, "its": [0, 1]}], "par_in": 0, "requests": ["alpha"]}
+    sim = etgen.Sim(tmp + "/", desc).write()
+    try:
+        import h5py
+        for fn in glob.glob(sim.outdir(0) + "/*.h5"):
+            with h5py.File(fn, "a") as f:
+                for k in f.keys():
+                    if "rl=1 c=1" in k:      # the second component is a box 20 points further in x
+                        f[k].attrs["iorigin"] = (f[k].attrs["iorigin"] + np.array([20, 0, 0])).astype(np.int32)
+        try:
+            data = do_read(sim.param(), {"it": [0], "vars": ["alpha"], "rl": 1, "restart": -1, "skip_last": False})
+            a = np.asarray(data["alpha"][0])
+            return "returned shape %s without error: x index 3 holds the point recorded at x = 33" % (a.shape,)
+        except Exception as ex:  # noqa
+            return "raised %s" % type(ex).__name__
+    finally:
+        sim.remove()
+
+
+def differing_columns(tmp):
+    desc = {"name": "diffcols", "per_proc": False, "grouped": False, "m0": True, "vars": ["alpha", "rho0"],
+            "levels": [{"shape": [4, 2, 2], "ghost": [1, 1, 1], "base": [0, 0, 0], "decomp": [[2, [[2, [4]]]]],
+                        "order": [0]}],
+            "restarts": [{"number": 0, "its": [0, 2, 4]}, {"number": 1, "its": [4, 6, 8]},
+                         {"number": 2, "its": [8, 10, 12]}], "par_in": 0, "requests": ["alpha", "rho0"]}
+    sim = etgen.Sim(tmp + "/", desc).write()
+    try:
+        os.remove(os.path.join(sim.outdir(1), "rho.h5"))        # restart 1 did not output rho
+        line = "flat 0,6,10 0:0:alpha=0;rho0=0 1:6:alpha=6 2:10:alpha=10;rho0=10"
+        try:
+            data = do_read(sim.param(), {"it": [0, 6, 10], "vars": ["alpha", "rho0"], "rl": 0, "restart": -1,
+                                         "skip_last": False})
+            real = "ok it=" + ",".join(str(int(i)) for i in data["it"]) + "".join(
+                "|%s=%s" % (k, ",".join(str(etgen.decode(np.asarray(a).flat[0])["it"]) for a in data[k]))
+                for k in ("alpha", "rho0") if k in data)
+        except Exception as ex:  # noqa
+            real = "err %s" % type(ex).__name__
+        return line, real
+    finally:
+        sim.remove()
+
+
+# --------------------------------------------------------------------------
 def run(ctx):
     ctx.trusted += ["Lean 4.33 kernel; axioms propext, Classical.choice, Quot.sound",
                     "py2lean/varmaps.py (YAML tables copied; function bodies AST-compared with the look-up loops)",
                     "Model/Chunks.lean is hand-written; tied to join_chunks / fixij / read_ET_group_or_var / "
                     "the restart choice of read_data by correspondence",
+                    "Model/Restarts.lean (restart choice with/without checkpoints, flattening) and "
+                    "Model/Checkpoint.lean (read_ET_checkpoints) are hand-written; tied to read_data and to "
+                    "read_ET_checkpoints (real HDF5 checkpoint files) by correspondence",
+                    "Spec/CheckpointSpec.lean, Spec/ChunkLayout.lean: hand-written statements of 'well-formed "
+                    "checkpoint' and 'accepted although not hierarchical'",
                     "lib/etgen.py (generator and ground truth; its variable table is written from the thorn "
                     "documentation, not from aurel)", "h5py / HDF5, numpy slicing/append/transpose semantics"]
     ctx.assumptions += ["arrays with a zero extent are represented only up to emptiness (nested lists carry no shape)",
                         "one chunk per process and level; every level has the same number of chunks in the "
                         "file-per-process layout (what Carpet writes)",
-                        "checkpoint reading (usecheckpoints=True) is outside this property",
+                        "checkpoint path: a variable name that exists in two thorns of one file is not modelled; "
+                        "all checkpoints of one restart are written by the same number of processes; the names "
+                        "requested through the checkpoint path are distinct after translation (a name requested "
+                        "twice is a reported defect candidate, see checkpoint_table_exact_needs_nodup)",
+                        "row alignment is claimed when every restart delivers the same columns (a variable missing "
+                        "in a middle restart is a reported defect candidate, see rows_misaligned_when_columns_differ)",
                         "requested iterations exist in the restart whose [first,last] range contains them "
                         "(otherwise the code raises ValueError, which the property allows)"]
     try:
@@ -428,9 +861,11 @@ def run(ctx):
         ctx.obligation("py2lean:varmaps", False, "translation failed: %r" % ex, kind="translation")
     if not ctx.broken():
         ctx.prove(MODULE, THEOREMS)
+        ctx.prove(MODULE_B, THEOREMS_B)
+        ctx.prove(MODULE_C, THEOREMS_C)
         ctx.forbidden_scan(LEAN_FILES)
         if ctx.tier == "thorough":
-            ctx.leanchecker([MODULE])
+            ctx.leanchecker([MODULE, MODULE_B, MODULE_C])
     tmp = tempfile.mkdtemp(prefix="c11_")
     found = 0
     try:
@@ -444,6 +879,17 @@ def run(ctx):
         f, sel_lines, sel_expect = pipeline(ctx, tmp + "/", ndirs)
         found += f
         cases += [(l, e, "sel") for l, e in zip(sel_lines, sel_expect)]
+        try:
+            cases += ckpt_cases(ctx, tmp)
+        except Exception as ex:  # noqa
+            ctx.obligation("correspondence: read_ET_checkpoints cases", False, repr(ex), kind="correspondence")
+        f, sel2 = checkpoint_pipeline(ctx, tmp + "/", ctx.budget(12, 80) + (8 if ctx.broken() else 0))
+        found += f
+        cases += sel2
+        try:
+            cases += witness_cases(ctx, tmp)
+        except Exception as ex:  # noqa
+            ctx.obligation("witness replays", False, repr(ex), kind="correspondence")
         try:
             outs = ctx.run_driver("Driver/C11.lean", [c[0] for c in cases])
         except Exception as ex:  # noqa
@@ -463,7 +909,12 @@ def run(ctx):
                      "raw": "joinChunks vs join_chunks on arbitrary boxes (malformed stream)",
                      "read": "trimGhost+joinChunks+fixij vs read_ET_group_or_var on a real HDF5 file",
                      "trim": "pyTrim vs numpy [g:-g]", "fixij": "fixij vs reading.fixij",
-                     "names": "Gen/VarMaps functions vs transform_vars_*", "sel": "readOrder vs restart chosen by read_data"}
+                     "names": "Gen/VarMaps functions vs transform_vars_*", "sel": "readOrder vs restart chosen by read_data",
+                     "ckpt": "Model/Checkpoint.readCheckpoints vs read_ET_checkpoints on real HDF5 checkpoint files "
+                             "(well-formed and malformed)",
+                     "sel2": "Model/Restarts.readETData vs restart chosen by read_data (with/without checkpoints, "
+                             "explicit restart, nothing to read)",
+                     "witness": "witnesses of the Lean theorems: model output vs real output"}
             for kind, title in names.items():
                 n = sum(1 for c in cases if c[2] == kind)
                 ctx.obligation("correspondence: %s (%d cases)" % (title, n), kind not in bad,
@@ -480,6 +931,10 @@ def replay(ctx, obj):
             bad = out != show(A)
             print("replay join: %s" % ("still differs from the array that was cut" if bad else "now correct"))
             return 1 if bad else 0
+        if obj.get("op") == "ckpt":
+            out, order, _ = ckpt_real(obj["case"], tmp)
+            print("replay ckpt: real read_ET_checkpoints gives %s" % out[:300])
+            return 0
         sim = etgen.Sim(tmp + "/", obj["desc"]).write()
         try:
             data = do_read(sim.param(), obj["call"])
@@ -502,14 +957,37 @@ MANIFEST = {
             "its own positions), all chunk counts and all enumeration orders that the model of join_chunks returns "
             "exactly the array that was cut; that trimming removes the ghost layers whatever they contain (widths "
             ">= 1; width 0 is the stated empty-slice boundary); that fixij is the (z,y,x)->(x,y,z) transposition and "
-            "an involution; that mismatching cross-sections raise; that an iteration found in several restarts is "
-            "taken from the latest one and rows come back in requested order; that every scalar name round-trips "
+            "an involution; that mismatching cross-sections raise; that every scalar name round-trips "
             "aurel->ET->aurel and every tensor expands to components that map back (tables regenerated from "
-            "var_mappings.yml on every run). The model is tied to join_chunks, fixij, read_ET_group_or_var and the "
-            "restart choice of read_data by exact correspondence; the whole read_data pipeline is compared with the "
-            "ground truth of generated Carpet-style directories in all four layouts.",
-    "note": "Trusted: Lean kernel + propext/Classical.choice/Quot.sound; the hand-written model (validated on 1500 "
-            "quick / 8000 thorough random decompositions of 1-60 chunks, malformed boxes, ghost widths 0-4 through "
-            "real HDF5 files); the generator lib/etgen.py; h5py/numpy. Not claimed: that every non-hierarchical "
-            "partition raises (equal-sized blocks can concatenate silently); checkpoint files.",
+            "var_mappings.yml on every run). "
+            "ACCEPTED LAYOUTS (Props/C11b): exact characterisation of the chunk dictionaries join_chunks accepts: "
+            "accepted <=> (up to order) the blocks of an ORDERED origin-annotated decomposition of the result, cut at "
+            "the cumulative offsets of the block extents - origins are used only to group and to sort; hence accepted "
+            "=> hierarchical chunks under their true origins (exact read-back) OR class X (origins with gaps, overlaps, "
+            "shifted strips/slabs: blocks packed side by side, silently); concrete class-X witnesses, replayed on the "
+            "real code; 'every unsupported layout raises' is proven FALSE of the code. "
+            "RESTARTS (Props/C11b, Model/Restarts.lean): for any number of restarts, any overlap, with and without "
+            "usecheckpoints, any request (duplicates, unsorted, absent iterations) and for an explicit restart: the "
+            "iteration is taken from the last catalogue entry holding it (= largest restart number for a sorted "
+            "catalogue); rows come back increasing, once each; the t column and every variable column have exactly one "
+            "entry per row, from the chosen restart - provided every restart delivers the same columns (otherwise a "
+            "concrete misaligned witness, replayed). "
+            "CHECKPOINTS (Props/C11c, Model/Checkpoint.lean written after read_ET_checkpoints): a well-formed checkpoint "
+            "(one file / one file with n components / one file per process; any file order, component numbering, "
+            "hierarchical decomposition, ghost content; other iterations, levels, past time levels, other variables in "
+            "the file) is read back exactly per iteration, as a table over all requested iterations, and through the "
+            "restart selection of read_ET_data(usecheckpoints=True); the hypothesis 'names distinct after translation' "
+            "is shown necessary by a witness replayed on the real code. "
+            "All models are tied to the code by exact integer correspondence (join_chunks, fixij, "
+            "read_ET_group_or_var and read_ET_checkpoints through real HDF5 files, restart choice of read_data); the "
+            "whole read_data pipeline, with and without usecheckpoints, is compared with the ground truth of generated "
+            "Carpet-style directories in all four layouts.",
+    "note": "Trusted: Lean kernel + propext/Classical.choice/Quot.sound; the hand-written models and specs (validated on "
+            "1500 quick / 8000 thorough random decompositions of 1-60 chunks, malformed boxes, ghost widths 0-4 through "
+            "real HDF5 files; 160 / 1500 random checkpoint file sets incl. malformed ones); the generator lib/etgen.py; "
+            "h5py/numpy. NOT claimed: that an unsupported layout raises (false: class X, e.g. a refinement level made "
+            "of two separate boxes is glued together - reported as defect candidate); alignment of a variable column "
+            "when the variable is missing in a middle restart (false - reported); the checkpoint path for a name "
+            "requested twice, e.g. gxx next to gammadown3 (false - reported), for the same variable name in two thorns "
+            "of one file (not modelled) and for restarts whose checkpoints were written with different process counts.",
 }
